@@ -7,6 +7,8 @@ pub mod c03;
 pub mod c04;
 pub mod c05;
 pub mod hist;
+pub mod c08;
+pub mod c09;
 
 pub fn run(engine: &str, ctx: &Ctx, rep: &mut Report) -> bool {
     match engine {
@@ -17,6 +19,8 @@ pub fn run(engine: &str, ctx: &Ctx, rep: &mut Report) -> bool {
         "c05" => c05::run(ctx, rep),
         "c06" => hist::run_c06(ctx, rep),
         "c07" => hist::run_c07(ctx, rep),
+        "c08" => c08::run(ctx, rep),
+        "c09" => c09::run(ctx, rep),
         _ => return false,
     }
     true
